@@ -238,25 +238,24 @@ Section Complete.
   (* the walk of the real remote-backed tree agrees for version 0 proofs
      (the version mkvs requests, lookup.go:12): no LeafNode pointer on the path
      is hash-only and no hash pointer is walked *)
-  Lemma bgt_lookup_go t : ver = 0 -> forall d,
-    plookup_go H (N.of_nat d) k (bgt d t) = of_opt (lookup d k t).
+  Lemma bgt_lookup_go t : ver = 0 -> forall fresh d,
+    plookup_go H fresh (N.of_nat d) k (bgt d t) = of_opt (lookup d k t).
   Proof.
-    intros V0. induction t as [|k0 v0|lbl lf l IHl r IHr]; intros d.
+    intros V0. induction t as [|k0 v0|lbl lf l IHl r IHr]; intros fresh d.
     - reflexivity.
     - cbn [bgt plookup_go lookup]. destruct (bytes_eqb k0 k); reflexivity.
     - cbn [bgt lookup].
       set (d' := (d + length lbl)%nat). set (kl := length (bits_of k)).
       assert (forall b, lfslot b lf = olf_ptree lf) as El by (intros b; unfold lfslot; now rewrite V0).
-      assert (forall pl pr, plookup_go H (N.of_nat d) k (pself lbl (olf_ptree lf) pl pr) =
-                if (kl =? d')%nat then plookup_go H (N.of_nat d') k (olf_ptree lf)
+      assert (forall pl pr, plookup_go H fresh (N.of_nat d) k (pself lbl (olf_ptree lf) pl pr) =
+                if (kl =? d')%nat then plookup_go H false (N.of_nat d') k (olf_ptree lf)
                 else if (kl <? d')%nat then Absent
-                else if bit (bits_of k) d' then plookup_go H (N.of_nat d') k pr
-                else plookup_go H (N.of_nat d') k pl) as Es.
+                else if bit (bits_of k) d' then plookup_go H false (N.of_nat d') k pr
+                else plookup_go H false (N.of_nat d') k pl) as Es.
       { intros pl pr. unfold pself. cbn [plookup_go]. fold kl.
         rewrite <- Nat2N.inj_add, Nat2N.id. fold d'.
-        assert (forall X : pres, match olf_ptree lf with PHash _ => Unknown | _ => X end = X) as Em.
-        { intros X. destruct lf as [[? ?]|]; reflexivity. }
-        rewrite Em.
+        assert (is_phash (olf_ptree lf) = false) as Em by (destruct lf as [[? ?]|]; reflexivity).
+        rewrite Em, andb_false_r.
         destruct (Nat.eqb_spec kl d') as [Ek|Nk].
         - rewrite Ek, N.eqb_refl. reflexivity.
         - destruct (N.eqb_spec (N.of_nat kl) (N.of_nat d')) as [E2|_]; [lia|].
